@@ -13,6 +13,52 @@ from .. import core, nets, observe, tla
 LEVEL = "model_checking"
 
 
+QUERIES = ["peak", "stats", "describe", "max_size", "leaf_sizes", "none", "none"]
+
+
+def query(tree, q):
+    if q == "peak":
+        tree.peak_size()
+    elif q == "stats":
+        tree.contract_stats()
+    elif q == "describe":
+        tree.describe("full")
+    elif q == "max_size":
+        tree.max_size()
+    elif q == "leaf_sizes":
+        for t in range(tree.N):
+            tree.get_size(frozenset([t]))
+
+
+def apply_plan(tree, net, plan, rng, route=None):
+    """Reach the sliced state of `plan` along a route: queries may come first and in between (they fill caches),
+    and some indices are restored and removed again in another order.  The final sliced / projected set is `plan`.
+    A given `route` (from a replay file) is followed literally."""
+    if route is None:
+        route = []
+        route.append(["query", rng.choice(QUERIES)])
+        for ix, proj in plan:
+            route.append(["remove", ix, proj])
+            if rng.random() < 0.3:
+                route.append(["query", rng.choice(QUERIES)])
+        if plan and rng.random() < 0.4:
+            back = rng.sample(plan, rng.randint(1, len(plan)))
+            for ix, proj in back:
+                route.append(["restore", ix])
+            again = list(back)
+            rng.shuffle(again)
+            for ix, proj in again:
+                route.append(["remove", ix, proj])
+    for step in route:
+        if step[0] == "query":
+            query(tree, step[1])
+        elif step[0] == "remove":
+            tree.remove_ind_(net.lab[step[1]], project=step[2])
+        else:
+            tree.restore_ind_(net.lab[step[1]])
+    return route
+
+
 def cases_for(run, ct, rng, net, tree_nested, n_subsets, with_exec, light=False):
     out = []
     ssa = nets.tree_to_ssa(tree_nested, net.N, rng)
@@ -31,8 +77,8 @@ def cases_for(run, ct, rng, net, tree_nested, n_subsets, with_exec, light=False)
         try:
             with core.watchdog(60):
                 tree = observe.build_tree(ct, net, ssa)
-                for ix, proj in plan:
-                    tree.remove_ind_(net.lab[ix], project=proj)
+                route = apply_plan(tree, net, plan, rng)
+                desc["route"] = route
                 arrays = nets.canon_arrays(net) if with_exec else None
                 orders = observe.order_fns(rng)
                 ename = rng.choice(list(orders))
@@ -86,7 +132,7 @@ def _judge(run, cases):
                         str(desc["plan"])))
         if v[0] != "ok":
             run.violation(f"reported figure disagrees with the definition: clause '{v[0]}' "
-                          f"eq={desc['net']['eq']} dims={desc['net']['dims']} ssa={desc['ssa']} plan={desc['plan']}",
+                          f"eq={desc['net']['eq']} dims={desc['net']['dims']} ssa={desc['ssa']} plan={desc['plan']} route={desc.get('route')}",
                           desc, tags=[v[0]])
         else:
             run.sample({"eq": desc["net"]["eq"], "dims": desc["net"]["dims"], "ssa": desc["ssa"],
@@ -99,8 +145,7 @@ def replay(run, desc):
     rng = random.Random(0)
     net = nets.Net.from_json(desc["net"])
     tree = observe.build_tree(ct, net, desc["ssa"])
-    for ix, proj in desc["plan"]:
-        tree.remove_ind_(net.lab[ix], project=proj)
+    apply_plan(tree, net, [tuple(p) for p in desc["plan"]], rng, route=desc.get("route"))
     orders = observe.order_fns(rng)
     snap = observe.snapshot(net, tree, orders=orders, arrays=nets.canon_arrays(net) if desc.get("exec") else None)
     _judge(run, [(snap, desc)])
